@@ -164,7 +164,7 @@ def run(ctx):
     # module, ValueVM3 against the real VM (result, prints, exception, peak sp, instruction count) and the evaluator
     try:
         from checks.parts import compiletie
-        ct3 = compiletie.run_compiletie(ctx, 800 if ctx.tier == "quick" else 6000, ctx.seed, level=3)
+        ct3 = compiletie.run_compiletie(ctx, 500 if ctx.tier == "quick" else 6000, ctx.seed, level=3)
         if ct3:
             for d in ct3["run_diffs"][:3]:
                 if d.get("valuevm") is not None and d.get("valuevm") == d.get("evaluator"):
@@ -177,7 +177,7 @@ def run(ctx):
     # table entry per segment, faults in bodies, in arguments of pending calls, in callees and inside clauses
     try:
         from checks.parts import compiletie
-        ct5 = compiletie.run_compiletie(ctx, 600 if ctx.tier == "quick" else 5000, ctx.seed, level=5)
+        ct5 = compiletie.run_compiletie(ctx, 500 if ctx.tier == "quick" else 5000, ctx.seed, level=5)
         if ct5:
             for d in ct5["run_diffs"][:3]:
                 if d.get("valuevm") is not None and d.get("valuevm") == d.get("evaluator"):
@@ -192,7 +192,7 @@ def run(ctx):
     # recursive nested functions (COPYGLOB), the breadth-first order of nested bodies
     try:
         from checks.parts import compiletie
-        ct4 = compiletie.run_compiletie(ctx, 600 if ctx.tier == "quick" else 5000, ctx.seed, level=4)
+        ct4 = compiletie.run_compiletie(ctx, 500 if ctx.tier == "quick" else 5000, ctx.seed, level=4)
         if ct4:
             for d in ct4["run_diffs"][:3]:
                 if d.get("valuevm") is not None and d.get("valuevm") == d.get("evaluator"):
